@@ -15,7 +15,8 @@ from lib import fq, cstr, clist, cbool, cnat
 
 KEY = "C15"
 IMPORTS = "From Allfed Require Import Base.StrUtil Model.Tables Model.Aggregate Gen.CountryTable."
-DEFS = "Definition trows : list row := Eval vm_compute in (map (decode_row columns) raw_rows).\n"
+# a plain definition: the VM evaluates the constant once per Eval; pre-normalising it costs 30 s of re-typechecking
+DEFS = "Definition trows : list row := map (decode_row columns) raw_rows.\n"
 NAMES = {1: "model rejects, implementation accepts", 2: "model accepts, implementation rejects", 3: "net_pop differs",
          4: "net_pop_fed differs", 5: "result keys differ"}
 
@@ -270,7 +271,7 @@ def run(ctx):
             ctx.broken.append(f"model does not compile against the regenerated table: {bad}")
         else:
             terms = [coq_case(c, r) for c, r in zip(cases, res)]
-            codes = ctx.coq_codes("c15", IMPORTS, terms, per_file=20 if ctx.quick else 100, defs=DEFS)
+            codes = ctx.coq_codes("c15", IMPORTS, terms, per_file=24 if ctx.quick else 100, defs=DEFS)
             nbad = 0
             for code, case, r in zip(codes, cases, res):
                 if code != 0:
